@@ -445,6 +445,17 @@ class ConfigParser(object):
       # ... or not text at all.
       raise ConfigParserException("Could not read potential definition, it is not a text file: {}".format(e))
 
+    # Section names are compared without whitespace, like keys (the parser's section proxies are kept in a
+    # dictionary that drops it): '[Pair ]' after '[Pair]' or '[Table-Form:my tab]' after '[Table-Form:mytab]'
+    # would silently stand in for the earlier section.
+    seen = {}
+    for section_name in cp.sections():
+      normalised = "".join(section_name.split())
+      if normalised in seen:
+        raise ConfigParserDuplicateEntryException("Sections [{}] and [{}] differ only in whitespace: the section is defined twice".format(
+          seen[normalised], section_name))
+      seen[normalised] = section_name
+
     # (any iterable may be given: both are walked more than once below)
     overrides = list(overrides)
     additional = list(additional)
